@@ -465,52 +465,68 @@ impl Avfx {
                     avfx.ags_enabled = read_bool(&mut cursor)?;
                 }
                 AvfxData::NumSchedulers => {
-                    todo!()
+                    // not implemented yet
+                    return None;
                 }
                 AvfxData::NumTimelines => {
-                    todo!()
+                    // not implemented yet
+                    return None;
                 }
                 AvfxData::NumEmitters => {
-                    todo!()
+                    // not implemented yet
+                    return None;
                 }
                 AvfxData::NumParticles => {
-                    todo!()
+                    // not implemented yet
+                    return None;
                 }
                 AvfxData::NumEffectors => {
-                    todo!()
+                    // not implemented yet
+                    return None;
                 }
                 AvfxData::NumBinders => {
-                    todo!()
+                    // not implemented yet
+                    return None;
                 }
                 AvfxData::NumTextures => {
-                    todo!()
+                    // not implemented yet
+                    return None;
                 }
                 AvfxData::NumModels => {
-                    todo!()
+                    // not implemented yet
+                    return None;
                 }
                 AvfxData::Scheduler => {
-                    todo!()
+                    // not implemented yet
+                    return None;
                 }
                 AvfxData::Timeline => {
-                    todo!()
+                    // not implemented yet
+                    return None;
                 }
                 AvfxData::Emitter => {
-                    todo!()
+                    // not implemented yet
+                    return None;
                 }
                 AvfxData::Particle => {
-                    todo!()
+                    // not implemented yet
+                    return None;
                 }
                 AvfxData::Effector => {
-                    todo!()
+                    // not implemented yet
+                    return None;
                 }
                 AvfxData::Binder => {
-                    todo!()
+                    // not implemented yet
+                    return None;
                 }
                 AvfxData::Texture => {
-                    todo!()
+                    // not implemented yet
+                    return None;
                 }
                 AvfxData::Model => {
-                    todo!()
+                    // not implemented yet
+                    return None;
                 }
             }
             let new_pos = cursor.position();
